@@ -71,9 +71,9 @@ func init() {
 		},
 		CapSeconds: func(tier string) int {
 			if tier == "thorough" {
-				return 1500
+				return 2400
 			}
-			return 100
+			return 300
 		},
 		Body: func(r *core.Run, x *explore.X) {
 			f := GenForest(x, r.Tier == "thorough")
